@@ -243,7 +243,7 @@ def log_and_types(a: int, pb: bool, b: int, lvl: int) -> int:
 
 
 @harness("C18", lemma="substitution", example=dict(s=5, a=1, b=2, pa=False), timeout=300,
-         bounds="graph top(mid(inn(A)), inn(A), B) with uncached consumers; the handler substitutes a symbolic value for the dataset inn only",
+         bounds="graph top(mid(inn(A)), inn(A), B, Map(inn, A over [7, 8])) with uncached consumers; the handler substitutes a symbolic value for the dataset inn only",
          what="an EvaluateRequest handler that substitutes a result for one specific dataset is honoured wherever that dataset is a "
               "dependency: every dependant equals the reference with the substituted value, and the dataset's own inputs are not needed")
 def substitution(s: int, a: int, b: int, pa: bool) -> int:
@@ -256,9 +256,11 @@ def substitution(s: int, a: int, b: int, pa: bool) -> int:
         def mid(i=inn):
             return ("mid", i)
 
+        from labrea import Map
+
         @dataset.nocache
-        def top(m=mid, i=inn, y=Option("B", 0)):
-            return ("top", m, i, y)
+        def top(m=mid, i=inn, y=Option("B", 0), mapped=Map(inn, {"A": Option("AS", [7, 8])}).values >> list):
+            return ("top", m, i, y, mapped)
 
     o = {"B": b}
     if pa:
@@ -272,7 +274,7 @@ def substitution(s: int, a: int, b: int, pa: bool) -> int:
 
     with quiet(), rt.handle(ltypes.EvaluateRequest, subst):
         got = outcome(lambda: top(o))
-    exp = ("top", ("mid", s), s, b)
+    exp = ("top", ("mid", s), s, b, [s, s])
     note("options", o, "substituted", s, "got", got, "expected", exp)
     if got[0] != "ok" or not same(got[1], exp):
         return 0
